@@ -42,6 +42,11 @@ def families(rng, torch, b, n, d, codes=None):
         pick = codes[torch.randint(0, k, (b, n))]
         F['equal-to-codes'] = pick.clone()
         F['antipodal-to-codes'] = -pick.clone()
+        # exactly opposite to the code the row is ASSIGNED to: a small negative multiple of the smallest-norm code (the rotation trick then
+        # rotates by pi: |u + q| = 0)
+        cmin = codes[codes.norm(dim=-1).argmin()]
+        sc = torch.tensor([[rng.choice([1e-3, 2.0 ** -10, 0.3, 0.05]) for _ in range(n)] for _ in range(b)])
+        F['antipodal-to-assigned-code'] = -sc[..., None] * cmin
     return F
 
 
@@ -66,6 +71,8 @@ def modules():
     add('vq-diversity', lambda: VectorQuantize(dim=3, codebook_size=6, codebook_diversity_loss_weight=1.0, codebook_diversity_temperature=100.0), 3, codes=cbk)
     add('vq-ce-commit', lambda: VectorQuantize(dim=3, codebook_size=6, commitment_use_cross_entropy_loss=True), 3, codes=cbk)
     add('vq-dim1', lambda: VectorQuantize(dim=1, codebook_size=4), 1, codes=cbk)
+    add('vq-euclid-rotation-d16', lambda: VectorQuantize(dim=16, codebook_size=8, rotation_trick=True), 16, codes=cbk)
+    add('vq-one-code-rotation', lambda: VectorQuantize(dim=3, codebook_size=1, rotation_trick=True), 3, codes=cbk)
     add('rvq', lambda: ResidualVQ(dim=4, num_quantizers=3, codebook_size=8, threshold_ema_dead_code=2), 4, single=False)
     add('rvq-cosine-shared', lambda: ResidualVQ(dim=4, num_quantizers=3, codebook_size=8, use_cosine_sim=True, shared_codebook=True, threshold_ema_dead_code=2), 4, single=False)
     add('rvq-implicit', lambda: ResidualVQ(dim=3, num_quantizers=2, codebook_size=4, implicit_neural_codebook=True, mlp_kwargs=dict(dim_hidden=4, depth=1)), 3, single=False)
@@ -113,6 +120,8 @@ def correspond(ctx, scale):
                 fams['single-token'] = torch.randn(2, m['dim'])
             for fname, x0 in fams.items():
                 mod = m['mk']()
+                if fname in ('equal-to-codes', 'antipodal-to-codes', 'antipodal-to-assigned-code'):
+                    x0 = families(rng, torch, 2, 3, m['dim'], m['codes'](mod))[fname]      # relative to THIS instance's codebook
                 latent = m['name'] == 'latent'
                 for t in range(steps):
                     train = t % 3 != 2
@@ -125,7 +134,7 @@ def correspond(ctx, scale):
                     x.requires_grad_(True)
                     ev += 1
                     dist[fname] = dist.get(fname, 0) + 1
-                    nt += fname in ('zeros', 'tiny', 'small', 'huge', 'identical-rows', 'equal-to-codes', 'antipodal-to-codes', 'one-hot', 'const', 'neg-huge-const', 'single-token')
+                    nt += fname in ('zeros', 'tiny', 'small', 'huge', 'identical-rows', 'equal-to-codes', 'antipodal-to-codes', 'antipodal-to-assigned-code', 'one-hot', 'const', 'neg-huge-const', 'single-token')
                     key = f'{m["name"]}:{fname}:train={train}'
                     try:
                         ret = mod(x, **m['kw'])
